@@ -480,6 +480,57 @@ def m_float_ref_op(I, m, argv, fr, dest, c):
     return I.fp_div(a, b)
 
 
+_UF = {}
+
+
+def uf_float(name, arity):
+    key = (name, arity)
+    if key not in _UF:
+        _UF[key] = z3.Function("libm_" + name, *([z3.Float64()] * arity + [z3.Float64()]))
+    return _UF[key]
+
+
+def m_libm(I, m, argv, fr, dest, c):
+    """sin, cos, atan2, asin, sqrt, ...: uninterpreted functions (the accuracy of libm is not the subject; the expression structure is)"""
+    name = m.group("f")
+    return uf_float(name, len(argv))(*argv)
+
+
+def m_float_pred(I, m, argv, fr, dest, c):
+    v = argv[0]
+    f = m.group("f")
+    if f == "is_nan":
+        return z3.fpIsNaN(v)
+    if f == "is_finite":
+        return z3.Not(z3.Or(z3.fpIsNaN(v), z3.fpIsInf(v)))
+    if f == "is_infinite":
+        return z3.fpIsInf(v)
+    return NotImplemented
+
+
+def m_float_clamp(I, m, argv, fr, dest, c):
+    v, lo, hi = argv
+    if not I.path.decide(z3.fpLEQ(lo, hi)):
+        raise Panic("f64::clamp: min > max, or either was NaN")
+    return z3.If(z3.fpLT(v, lo), lo, z3.If(z3.fpGT(v, hi), hi, v))
+
+
+def m_option_is_some(I, m, argv, fr, dest, c):
+    o = deref1(argv[0])
+    return z3.BoolVal((o.vname == "Some") == (m.group("f") == "is_some"))
+
+
+def m_option_unwrap_or(I, m, argv, fr, dest, c):
+    o = argv[0]
+    return o.fields[0] if o.vname == "Some" else argv[1]
+
+
+def m_ref_eq(I, m, argv, fr, dest, c):
+    a, b = deref1(deref1(argv[0])), deref1(deref1(argv[1]))
+    r = z3.fpEQ(a, b) if z3.is_fp(a) else a == b
+    return z3.Not(r) if m.group("f") == "ne" else r
+
+
 def m_size_of(I, m, argv, fr, dest, c):
     sizes = {"f32": 4, "f64": 8, "u8": 1, "u16": 2, "u32": 4, "u64": 8, "usize": 8, "i64": 8, "i32": 4, "u128": 16, "i128": 16}
     t = m.group("t")
@@ -509,6 +560,12 @@ def container_models():
         (R(r"^<(?P<t>Option<.*>|u64|usize|i64|bool|String|Vec<.*>) as Default>::default$"), m_default),
         (R(r"^std::mem::size_of::<(?P<t>\w+)>$|^core::mem::size_of::<(?P<t2>\w+)>$"), m_size_of),
         (R(r"^<&?f(?:32|64) as (?:Add|Sub|Mul|Div)<&?f(?:32|64)>>::(?P<op>add|sub|mul|div)$"), m_float_ref_op),
+        (R(r"^(?:(?:std|core)::)?f64::<impl f64>::(?P<f>sin|cos|tan|atan2|asin|acos|atan|sqrt|hypot|powi|powf|exp|ln)$"), m_libm),
+        (R(r"^(?:(?:std|core)::)?f(?:32|64)::<impl f(?:32|64)>::(?P<f>is_nan|is_finite|is_infinite)$"), m_float_pred),
+        (R(r"^(?:(?:std|core)::)?f64::<impl f64>::clamp$"), m_float_clamp),
+        (R(r"^Option::<.*>::(?P<f>is_some|is_none)$"), m_option_is_some),
+        (R(r"^Option::<.*>::unwrap_or$"), m_option_unwrap_or),
+        (R(r"^<&*(?:f64|f32|i64|u64|usize|u8) as PartialEq(?:<.*>)?>::(?P<f>eq|ne)$"), m_ref_eq),
         (R(r"^Vec::<(?P<t>[\w<>:, ]+)>::(?:new|with_capacity)$"), m_vec_new),
         (R(r"^Vec::<.*>::len$|^VecDeque::<.*>::len$"), m_vec_len),
         (R(r"^Vec::<.*>::is_empty$|^VecDeque::<.*>::is_empty$"), m_vec_is_empty),
